@@ -67,7 +67,12 @@ func loadFile(name string, raw []byte, variant int) *text.File {
 		f = diskFile(name, raw)
 	}
 	if f == nil {
-		f = text.NewFile(name, raw)
+		// the file owns its content: the caller's buffer is reused for something else straight away
+		buf := append([]byte(nil), raw...)
+		f = text.NewFile(name, buf)
+		for i := range buf {
+			buf[i] = '#'
+		}
 	}
 	if variant&2 == 2 {
 		_ = parsley.NewFileSet(text.NewFile("earlier", []byte("0123456\n89")), f)
@@ -82,4 +87,35 @@ func variantOf(raw []byte, salt int) int {
 		h &= 0xffffff
 	}
 	return h % 4
+}
+
+// Inputs for warming a parser graph up before the observed run: a grammar value is built once and used for any
+// number of inputs, so whatever earlier inputs it has seen must leave no trace.  The variants keep the tokens of
+// the case at (partly) the same positions with other whitespace behind them.
+func warmInputs(raw []byte) [][]byte {
+	var spaced, tripled []byte
+	for _, b := range raw {
+		spaced = append(spaced, b, ' ')
+		if b == ' ' {
+			tripled = append(tripled, ' ', ' ', ' ')
+		} else {
+			tripled = append(tripled, b)
+		}
+	}
+	tripled = append(tripled, ' ', ' ')
+	doubled := append(append([]byte(nil), raw...), raw...)
+	return [][]byte{tripled, spaced, doubled}
+}
+
+// a file with the given content at the same base offset as the observed one
+func warmFile(raw []byte, offset int) (*text.File, *parsley.FileSet) {
+	f := text.NewFile("w", raw)
+	if offset <= 1 {
+		return f, parsley.NewFileSet(f)
+	}
+	filler := make([]byte, offset-2)
+	for i := range filler {
+		filler[i] = 'a'
+	}
+	return f, parsley.NewFileSet(text.NewFile("x", filler), f)
 }
